@@ -518,6 +518,40 @@ def noOpFires (op : NoOp) (constSide : Nat) (cNdim : Nat) (neutral : Bool) : Boo
    | .mul1 | .add0 => constSide == 0 || constSide == 1
    | .sub0 | .div1 => constSide == 1)
 
+/-- `isinstance(dim, int) and dim > 0`. -/
+def Dim.posInt? : Dim → Option Int
+  | .known n => if 0 < n then some n else none
+  | _ => none
+
+/-- `ReshapeReshape.check`, step "replace {0,-1} values in shape if reshape output is known":
+`for i, dim in enumerate(reshape_output): if isinstance(dim, int) and dim > 0: new_shape[i] = dim`.
+`raised` = the `IndexError` of an assignment past the end of the target (annotation longer than the target). -/
+def rrUpdate : Shape → List Int → Raised (List Int)
+  | [], s => .ret s
+  | d :: o, [] =>
+    (match d.posInt? with
+     | some _ => .raised
+     | none => rrUpdate o [])
+  | d :: o, v :: s =>
+    (match rrUpdate o s with
+     | .raised => .raised
+     | .ret r => .ret ((match d.posInt? with | some n => n | none => v) :: r))
+
+/-- `ReshapeReshape.check` → (`_new_shape`, `_allowzero == 1`) of `Reshape(Reshape(x, _), shape)` → `Reshape(x, new_shape)`.
+`shape` = the second target if it is a constant, `out` = annotation of the second Reshape's output, `az` = its
+`allowzero` attribute (default 0).  `ret none`: the check fails. -/
+def reshapeReshape (shape : Option (List Int)) (out : Option Shape) (az : Int) : Raised (Option (List Int × Bool)) :=
+  match shape with
+  | none => .ret none
+  | some t =>
+    match (match out with | some o => rrUpdate o t | none => .ret t) with
+    | .raised => .raised
+    | .ret u =>
+      if az = 1 && u.contains 0 then .ret (some (u, true))
+      else if u.contains 0 && u.any (· < 0) then .ret none
+      else if (u.filter (· == 0)).length > 1 then .ret none
+      else .ret (some (u.map (fun d => if d = 0 then -1 else d), false))
+
 /-! ## The ONNX specification side -/
 
 /-- multidirectional broadcasting of two dimension values. -/
